@@ -27,8 +27,14 @@ META = {
              "spec; the model states the amd64 SSE2 rule (first NaN operand, quieted; default NaN fff8…), but the correspondence does not "
              "assert it: every op line whose INC may meet NaN / ±Inf is an `apn` line, for which both sides print NaN leaves as the "
              "canonical quiet NaN (compared as \"is NaN\"). apply_wf "
-             "assumes no container is pushed past 2^32-1 children and paths shorter than 2^32 bytes. Error-class agreement between "
-             "model and code is tested, not proved."),
+             "assumes no container is pushed past 2^32-1 children and paths shorter than 2^32 bytes. ERROR CLASSES: apply_error_class proves that a documented "
+             "failure of class c (Spec.refOps) is a failure of class c of the model (and op_agrees / applyOps_agrees the converse), "
+             "for all op kinds, when (a) MERGE values are ones the code accepts and (b) no op runs after a same-patch container "
+             "splice (NoSplice; finding C13-spliced-value-opaque otherwise). Ambiguous in the docs, tested only: a rejected MERGE "
+             "value that is malformed AND not a map (code: TYPE_MISMATCH by first byte, decode-first reading: ENCODING_NOT_SUPPORTED; "
+             "closed witness merge_rejected_class), msgpack-vs-nonstr inside a malformed MERGE map (same status 7), and an op with "
+             "both a malformed value and a bad path (check order undocumented; the oracle abstains). That the Go code fails with the "
+             "model's class is the correspondence run, not a proof."),
     "design_ref": "§8 C13",
 }
 
@@ -706,7 +712,7 @@ def oracle_line(op, rep):
             if got != t:
                 d = _first_diff(got, t)
                 if d and d[1][0] == "L" and d[2][0] == "L" and _num(d[1][1])[0] and _num(d[2][1])[0] \
-                        and d[1][1][0] != d[2][1][0] and any(k == "inc" for k, _, _ in ops):
+                        and d[1][1][0] != d[2][1][0] and any(k == "inc" for k, _, _ in ops) and not rmval_container(ops):
                     return (None, "INC does not keep the target's numeric format: at `%s` the output holds %s (code %02x), the documented "
                             "rule gives %s (code %02x)" % (d[0].lstrip("."), d[1][1].hex(), d[1][1][0], d[2][1].hex(), d[2][1][0]))
                 where = " (first difference at `%s`: got %s, expected %s)" % (
@@ -773,7 +779,9 @@ def judge_error(body, cond, ops, got_status, what):
         if got_status == 3:
             return (None, "condition %s IS met by the document (exact integer / IEEE comparison), but the patch was rejected as "
                     "CONDITION_NOT_MET" % ":".join(cond or ()))
-        return (None, "the documented outcome is %s, but %s" % (STATUS_NAME.get(exp[1], exp[1]), what))
+        # a skipped container REMOVE_VAL changes what the following ops meet (another error, or an error elsewhere)
+        fid = "C13-removeval-skips-containers" if rmval_container(ops) else None
+        return (fid, "the documented outcome is %s, but %s" % (STATUS_NAME.get(exp[1], exp[1]), what))
     return None
 
 
@@ -849,12 +857,13 @@ def judge_pf(op, rep):
             if st == want_st:
                 try:
                     if dec_all(unhex(new)) != out[1]:
-                        return (None, "PatchFields stored %s, which is not the document the documented semantics give" % new)
+                        fid = "C13-removeval-skips-containers" if rmval_container(ops) else None
+                        return (fid, "PatchFields stored %s, which is not the document the documented semantics give" % new)
                 except Malformed:
                     return (None, "PatchFields stored a body the reference decoder rejects: %s" % new)
     if st != want_st:
-        fid = "C13-removeval-skips-containers" if rmval_container(ops) and st in (0, 1) else None
-        if body is not None and st not in (0, 1) and want_st not in (0, 1, None):
+        fid = "C13-removeval-skips-containers" if rmval_container(ops) and body is not None else None
+        if fid is None and body is not None and st not in (0, 1) and want_st not in (0, 1, None):
             fid = "C13-status-mapping"      # an op / condition error reported under another status
         return (fid, "PatchFields replied %s (%d), the documented status is %s (%d)" %
                 (STATUS_NAME.get(st, "?"), st, STATUS_NAME.get(want_st, "?"), want_st))
